@@ -214,8 +214,10 @@ fn judge(t: &Table, line: &str, layer: &str, rank: u64) -> (Vec<Failure>, bool, 
         Outcome::Err(e) => out.push(fail(format!("extract:error:{}", msg_class(e)), format!("{} on line {:?}: error {}", def, line, e), case, json!("row or no row"), json!(e), rank)),
         Outcome::Panic(p) => out.push(fail(panic_signature(p), format!("{} on line {:?}: panic {}", def, line, p.msg), case, json!("row or no row"), json!(p.msg), rank)),
     }
-    let nn = firsts.iter().filter(|v| !v.is_null()).count();
-    (out, (nn >= 1 && nn < firsts.len()) || t.cols.iter().zip(&firsts).any(|(c, v)| c.modifier == "NOT NULL" && v.is_null()), okey)
+    // non-trivial: a referenced group took part in the match (so that a conversion decided the value), or NOT NULL cut the row
+    let mut cache3 = vec![None; t.patterns.len()];
+    let took_part = t.cols.iter().any(|c| c.refs.iter().any(|r| group_text(t, line, *r, &mut cache3).1.is_some()));
+    (out, took_part || t.cols.iter().zip(&firsts).any(|(c, v)| c.modifier == "NOT NULL" && v.is_null()), okey)
 }
 
 const P1: &str = "([a-z]+)=([-+0-9a-zA-Z. ٣]*)(?: (x))?";
@@ -316,6 +318,28 @@ pub fn run(ctx: &Ctx) -> i32 {
             }
         }
     }
+    if thorough {
+        // the full product of the slot alphabets
+        let mut idx = [0usize; 7];
+        loop {
+            date_lines.push((0..7).map(|i| slots[i][idx[i]]).collect::<Vec<_>>().join(" "));
+            let mut k = 0;
+            loop {
+                if k == 7 {
+                    break;
+                }
+                idx[k] += 1;
+                if idx[k] < slots[k].len() {
+                    break;
+                }
+                idx[k] = 0;
+                k += 1;
+            }
+            if k == 7 {
+                break;
+            }
+        }
+    }
     date_lines.push("2021 2 29 0 0 0 0".into());
     date_lines.push("2020 2 29 0 0 0 0".into());
     date_lines.push("1900 2 29 0 0 0 0".into());
@@ -367,7 +391,7 @@ pub fn run(ctx: &Ctx) -> i32 {
         let (fs, nt, okey) = judge(t, l, layer, l.len() as u64);
         col.eval(1);
         if nt {
-            col.nontrivial(h64(&(idx, l)));
+            col.nontrivial(h64(&(table_sql(t), l)));
         }
         col.outcome(okey);
         if idx % 30011 == 7 {
@@ -383,7 +407,7 @@ pub fn run(ctx: &Ctx) -> i32 {
         &col,
         Finish {
             level: "exploration",
-            rule: "CREATE TABLE texts from a column-spec alphabet (6 types x group indexes {0,1,2,3,9} x {-, NOT NULL, DEFAULT, TRIM}; arrays over reference lists; timestamps over 2..7 references x {-, MICROSECONDS, DEFAULT}; capture / split / inline / several patterns; column pairs) x lines built from per-slot token alphabets (empty, extremes, non-literals, non-ASCII digits, out-of-range date parts; quick: <= 2 date slots varied from a valid baseline, thorough: all pairs of slots); oracle: reference extractor (regex crate as matcher + own literal grammars + own calendar). Non-trivial: the row has at least one non-NULL and one NULL/default column, or is cut by NOT NULL.".into(),
+            rule: "CREATE TABLE texts from a column-spec alphabet (6 types x group indexes {0,1,2,3,9} x {-, NOT NULL, DEFAULT, TRIM}; arrays over reference lists; timestamps over 2..7 references x {-, MICROSECONDS, DEFAULT}; capture / split / inline / several patterns; column pairs) x lines built from per-slot token alphabets (empty, extremes, non-literals, non-ASCII digits, out-of-range date parts; quick: <= 2 date slots varied from a valid baseline, thorough: all pairs of slots); oracle: reference extractor (regex crate as matcher + own literal grammars + own calendar). Non-trivial: a referenced group took part in the match (a conversion decided the value), or the row is cut by NOT NULL.".into(),
             exhaustive: true,
             assumptions: vec!["regex crate trusted as matcher".into(), "BOOLEAN column of an unmatched pattern: NULL/DEFAULT or false accepted; a non-numeric date part: NULL or DEFAULT accepted".into(), "TZ=UTC".into()],
             bounds: json!({"cases": total}),
